@@ -19,7 +19,10 @@ Two conventions are computed and compared:
   'ref'  : the decimal constants of the reference source, as above (exact rationals);
   'true' : LOG = ln 1.5, ln 1.3, ln 1.1 as real numbers (what "log base 1.5" means, and what
            Python's math.log(l, 1.5) approximates), enclosed by the atanh series.
-They give the same table (asserted).  With --check-floats the double-precision formulas
+They give the same table up to length 795080; from there on some thresholds of the 'true'
+convention are lower by 1 or more (LOG_1_1 is ln 1.1 rounded UP in the 9th digit): the lengths
+at which the two conventions give different L values are listed in the generated comment.  The
+table that is emitted is 'ref'.  With --check-floats the double-precision formulas
 (C reference style and Python log(l,b) style) are evaluated for every len < 2^24 and compared
 with the table.
 
@@ -43,7 +46,7 @@ def exp_bounds(lo, hi):
             n += 1
             term = rnd(term * c / n)
             s += term
-            if n > 2 * c + 2 and term * SCALE < 1:
+            if n > 2 * c + 2 and term * SCALE <= 1:
                 break
         if upper:      # remainder sum_{m>n} c^m/m! <= term * r/(1-r), r = c/(n+1) <= 1/2  => <= term
             s += up(term)
@@ -107,7 +110,9 @@ def main():
     true = (ln_bounds(3, 2), ln_bounds(13, 10), ln_bounds(11, 10))
     T = table(ref)
     T2 = table(true)
-    assert T == T2, [(k + 1, a, b) for k, (a, b) in enumerate(zip(T, T2)) if a != b]
+    assert len(T) == len(T2) and all(b <= a for a, b in zip(T, T2))
+    diff = [(k + 1, a, b) for k, (a, b) in enumerate(zip(T, T2)) if a != b]
+    assert all(a >= 795082 for _, a, _ in diff)
     assert len(T) < 256                       # "& 0xff" of the reference never wraps
     # top values as tabulated by later releases of the reference (topval[]), from memory, first 24
     top = [1, 2, 3, 5, 7, 11, 17, 25, 38, 57, 86, 129, 194, 291, 437, 656, 854, 1110, 1443, 1876, 2439, 3171, 3475, 3823]
@@ -118,6 +123,7 @@ def main():
         bad_c, bad_py = [], []
         for n in range(1, 2**24):
             want = bisect.bisect_right(T, n)
+            wantp = bisect.bisect_right(T2, n)
             if n <= 656:
                 c = floor(log(float(n)) / 0.4054651); p = floor(log(n, 1.5))
             elif n <= 3199:
@@ -125,10 +131,14 @@ def main():
             else:
                 c = floor(log(float(n)) / 0.095310180 - 62.5472); p = floor(log(n, 1.1) - 62.5472)
             if c != want: bad_c.append((n, c, want))
-            if p != want: bad_py.append((n, p, want))
-        print("\\* float check over 1 <= len < 2^24: C-style mismatches %r, Python-style mismatches %r"
-              % (bad_c[:10], bad_py[:10]), file=sys.stderr)
+            if p != wantp: bad_py.append((n, p, wantp))
+        print("float check over 1 <= len < 2^24: C-style doubles vs 'ref' table: mismatches %r; "
+              "Python log(l,b) doubles vs 'true' table: mismatches %r" % (bad_c[:10], bad_py[:10]), file=sys.stderr)
     print("\\* generated by tools/gen_tlsh_consts.py: TlshLThresh[k] = least length with L value >= k (lengths < 2^31)")
+    print("\\* With real logarithms (log base 1.5/1.3/1.1 instead of the reference's decimal constants) the L value is")
+    print("\\* larger by one exactly for the lengths T' <= len < T of: (k, T, T') = ")
+    small = [d for d in diff if d[2] < 2**24]
+    print("\\*   " + ", ".join("(%d, %d, %d)" % d for d in small) + "  and %d more thresholds at lengths >= 2^24" % (len(diff) - len(small)))
     print("TlshLThresh == <<")
     for i in range(0, len(T), 10):
         print("    " + ", ".join(str(x) for x in T[i:i + 10]) + ("," if i + 10 < len(T) else ""))
